@@ -394,4 +394,575 @@ theorem foldl_stage_files (L : List Path) (w : World)
       · rename_i e; rw [e, lstatView_file_get hv]; rfl
       · rfl
 
+/-! ## branch switch -/
+
+/-! ### order of changes -/
+
+theorem mem_insertPath (p q : Path) (l : List Path) : q ∈ insertPath p l ↔ q = p ∨ q ∈ l := by
+  induction l with
+  | nil => simp [insertPath]
+  | cons x r ih =>
+    unfold insertPath
+    split
+    · rename_i h; subst h; simp
+    · split
+      · simp
+      · simp only [List.mem_cons, ih]
+        constructor
+        · rintro (h | h | h)
+          · exact Or.inr (Or.inl h)
+          · exact Or.inl h
+          · exact Or.inr (Or.inr h)
+        · rintro (h | h | h)
+          · exact Or.inr (Or.inl h)
+          · exact Or.inl h
+          · exact Or.inr (Or.inr h)
+
+theorem mem_sortPaths (q : Path) (l : List Path) : q ∈ sortPaths l ↔ q ∈ l := by
+  induction l with
+  | nil => simp [sortPaths]
+  | cons x r ih =>
+    have : sortPaths (x :: r) = insertPath x (sortPaths r) := rfl
+    rw [this, mem_insertPath, ih]; simp
+
+theorem nodup_insertPath {p : Path} {l : List Path} (hp : p ∉ l) (hl : l.Nodup) : (insertPath p l).Nodup := by
+  induction l with
+  | nil => simp [insertPath]
+  | cons x r ih =>
+    have hx : p ≠ x := fun e => hp (e ▸ List.mem_cons_self)
+    have hr : p ∉ r := fun e => hp (List.mem_cons_of_mem _ e)
+    rw [List.nodup_cons] at hl
+    unfold insertPath
+    simp only [hx, if_false]
+    split
+    · rw [List.nodup_cons]
+      exact ⟨hp, List.nodup_cons.mpr hl⟩
+    · rw [List.nodup_cons]
+      refine ⟨?_, ih hr hl.2⟩
+      rw [mem_insertPath]
+      rintro (h | h)
+      · exact hx h.symm
+      · exact hl.1 h
+
+theorem mem_dedupPaths (q : Path) (l : List Path) : q ∈ dedupPaths l ↔ q ∈ l := by
+  induction l with
+  | nil => simp [dedupPaths]
+  | cons x r ih =>
+    unfold dedupPaths
+    split
+    · rename_i h
+      rw [ih]
+      constructor
+      · exact List.mem_cons_of_mem _
+      · intro h'
+        rcases List.mem_cons.mp h' with e | e
+        · rw [e]; exact h
+        · exact e
+    · simp [ih]
+
+theorem nodup_dedupPaths (l : List Path) : (dedupPaths l).Nodup := by
+  induction l with
+  | nil => simp [dedupPaths]
+  | cons x r ih =>
+    unfold dedupPaths
+    split
+    · exact ih
+    · rename_i h
+      rw [List.nodup_cons]
+      exact ⟨fun e => h ((mem_dedupPaths x r).mp e), ih⟩
+
+theorem nodup_sortPaths {l : List Path} (h : l.Nodup) : (sortPaths l).Nodup := by
+  induction l with
+  | nil => simp [sortPaths]
+  | cons x r ih =>
+    rw [List.nodup_cons] at h
+    have : sortPaths (x :: r) = insertPath x (sortPaths r) := rfl
+    rw [this]
+    exact nodup_insertPath (fun e => h.1 ((mem_sortPaths x r).mp e)) (ih h.2)
+
+theorem mem_changedPathOrder (a b : FMap Entry) (p : Path) :
+    p ∈ changedPathOrder a b ↔ p ∈ a.keys ++ b.keys := by
+  unfold changedPathOrder; rw [mem_sortPaths, mem_dedupPaths]
+
+theorem nodup_changedPathOrder (a b : FMap Entry) : (changedPathOrder a b).Nodup :=
+  nodup_sortPaths (nodup_dedupPaths _)
+
+
+/-- No path of the list lies below another one. -/
+def AncFree (K : List Path) : Prop := K.all (fun p => K.all (fun q => !isAncestor p q)) = true
+
+instance (K : List Path) : Decidable (AncFree K) := by unfold AncFree; infer_instance
+
+theorem AncFree.apply {K : List Path} (h : AncFree K) {p q : Path} (hp : p ∈ K) (hq : q ∈ K) :
+    isAncestor p q = false := by
+  have := (List.all_eq_true.mp ((List.all_eq_true.mp h) p hp)) q hq
+  simpa using this
+
+namespace FMap
+variable {α : Type}
+
+theorem mem_keys_erase {m : FMap α} {p k : Path} (h : k ∈ (erase m p).keys) : k ∈ m.keys := by
+  simp only [keys, erase, List.mem_map, List.mem_filter] at h ⊢
+  obtain ⟨kv, ⟨hkv, _⟩, hk⟩ := h
+  exact ⟨kv, hkv, hk⟩
+
+theorem mem_keys_put {m : FMap α} {p k : Path} {v : α} (h : k ∈ (put m p v).keys) : k = p ∨ k ∈ m.keys := by
+  simp only [put, keys, List.map_cons, List.mem_cons] at h
+  rcases h with h | h
+  · exact Or.inl h
+  · exact Or.inr (mem_keys_erase h)
+
+end FMap
+
+/-- With all directory entries among `K` and `K` free of ancestor pairs, `lstat` of a path of `K`
+depends on that path alone. -/
+theorem free_view {wd : FMap WFile} {K : List Path} {p : Path}
+    (hkeys : ∀ k ∈ wd.keys, k ∈ K) (hK : AncFree K) (hp : p ∈ K) :
+    hasFileAncestor wd p = false ∧ hasDescendant wd p = false ∧ hasLinkAncestor wd p = false := by
+  refine ⟨?_, ?_, ?_⟩
+  · unfold hasFileAncestor
+    rw [List.any_eq_false]
+    intro k hk
+    simp [hK.apply (hkeys k hk) hp]
+  · unfold hasDescendant
+    rw [List.any_eq_false]
+    intro k hk
+    simp [hK.apply hp (hkeys k hk)]
+  · unfold hasLinkAncestor
+    rw [List.any_eq_false]
+    intro k hk
+    simp [hK.apply (hkeys k hk) hp]
+
+theorem free_view_some {wd : FMap WFile} {K : List Path} {p : Path} {f : WFile}
+    (hkeys : ∀ k ∈ wd.keys, k ∈ K) (hK : AncFree K) (hp : p ∈ K) (hg : wd.get p = some f) :
+    lstatView wd p = .file f :=
+  lstatView_noAnc_some (free_view hkeys hK hp).1 hg
+
+theorem free_view_none {wd : FMap WFile} {K : List Path} {p : Path}
+    (hkeys : ∀ k ∈ wd.keys, k ∈ K) (hK : AncFree K) (hp : p ∈ K) (hg : wd.get p = none) :
+    lstatView wd p = .enoent := by
+  rw [lstatView_noAnc_none (free_view hkeys hK hp).1 hg, (free_view hkeys hK hp).2.1]
+  rfl
+
+def fileOf (y : Entry) (o : StatKey × LinkRes) : WFile := ⟨y.kind, y.cid, o.1, o.2⟩
+
+theorem transitionToAbsent_file {s : WT} {p : Path} {f : WFile} (hv : validPath p = true)
+    (hview : lstatView s.wd p = .file f) :
+    transitionToAbsent s p = .ok ⟨s.wd.erase p, s.index.erase p⟩ := by
+  unfold transitionToAbsent
+  simp [hv, hview]
+
+theorem transitionToFile_absent {obs : Obs} {s : WT} {p : Path} {e : Entry} {o : StatKey × LinkRes}
+    (hv : validPath p = true) (hl : hasLinkAncestor s.wd p = false)
+    (hview : lstatView s.wd p = .enoent) (ho : obs.get p = some o) :
+    transitionToFile obs s p e = .ok ⟨s.wd.put p (fileOf e o), s.index.put p (fileOf e o).ientry⟩ := by
+  unfold transitionToFile writeFile
+  simp [hv, hl, hview, ho, fileOf, WFile.ientry]
+
+theorem transitionToFile_differs {obs : Obs} {s : WT} {p : Path} {e : Entry} {o : StatKey × LinkRes} {f : WFile}
+    (hv : validPath p = true) (hl : hasLinkAncestor s.wd p = false)
+    (hview : lstatView s.wd p = .file f) (hne : f.entry ≠ e) (hsame : isLink f.kind = isLink e.kind)
+    (ho : obs.get p = some o) :
+    transitionToFile obs s p e = .ok ⟨s.wd.put p (fileOf e o), s.index.put p (fileOf e o).ientry⟩ := by
+  unfold transitionToFile writeFile
+  have hm : (if isLink f.kind = true then f.cid == e.cid else fileMatches f e) = false := by
+    obtain ⟨fk, fc, fs, fr⟩ := f
+    obtain ⟨ek, ec⟩ := e
+    simp only [WFile.entry, ne_eq, Entry.mk.injEq, not_and] at hne
+    simp only [fileMatches]
+    simp only at hsame
+    split
+    · rename_i hlk
+      have h1 : fk = .symlink := by simpa [isLink] using hlk
+      have h2 : ek = .symlink := by rw [hlk] at hsame; simpa [isLink] using hsame.symm
+      simpa using hne (h1.trans h2.symm)
+    · rename_i hlk
+      have h1 : fk ≠ .symlink := by simpa [isLink] using hlk
+      have h2 : ek ≠ .symlink := by
+        intro e; rw [e] at hsame; simp [isLink] at hsame; exact h1 hsame
+      by_cases hk : fk = ek
+      · simpa [hk] using hne hk
+      · cases fk <;> cases ek <;> simp_all
+  simp [hv, hl, hview, ho, hm, fileOf, WFile.ientry]
+
+
+/-- The file the switch leaves at `p`: nothing if `b` has nothing there, the untouched old file if
+the entry is unchanged, otherwise a freshly written file. -/
+def targetWd (a b : FMap Entry) (fA : FMap WFile) (obs : Obs) (p : Path) : Option WFile :=
+  match b.get p with
+  | none => none
+  | some y => if a.get p = some y then fA.get p else (obs.get p).map (fileOf y)
+
+theorem applyChanges_one {obs : Obs} {s s' : WT} {c : Change} (h : applyChange obs s c = .ok s') :
+    applyChanges obs s [c] = (s', none) := by
+  simp [applyChanges, h]
+
+theorem applyChanges_two {obs : Obs} {s s' s'' : WT} {c d : Change} (h : applyChange obs s c = .ok s')
+    (h' : applyChange obs s' d = .ok s'') :
+    applyChanges obs s [c, d] = (s'', none) := by
+  simp [applyChanges, h, h']
+
+/-- Processing the changes at one path, from the state a clean checkout of `a` left there. -/
+theorem applyChangesAt {a b : FMap Entry} {fA : FMap WFile} {obs : Obs} {K : List Path} {s : WT} {p : Path}
+    (hK : AncFree K) (hkeys : ∀ k ∈ s.wd.keys, k ∈ K) (hp : p ∈ K)
+    (hva : ∀ x, a.get p = some x → validPath p = true) (hvb : ∀ y, b.get p = some y → validPath p = true)
+    (hobs : ∀ y, b.get p = some y → ∃ o, obs.get p = some o)
+    (hfA0 : a.get p = none → fA.get p = none)
+    (hfA1 : ∀ x, a.get p = some x → ∃ f, fA.get p = some f ∧ f.entry = x)
+    (hwd : s.wd.get p = fA.get p) (hidx : s.index.get p = (fA.get p).map WFile.ientry) :
+    ∃ s', applyChanges obs s (changesAt a b p) = (s', none) ∧ (∀ k ∈ s'.wd.keys, k ∈ K) ∧
+      s'.wd.get p = targetWd a b fA obs p ∧
+      s'.index.get p = (targetWd a b fA obs p).map WFile.ientry ∧
+      ∀ q, q ≠ p → s'.wd.get q = s.wd.get q ∧ s'.index.get q = s.index.get q := by
+  have hfree := free_view hkeys hK hp
+  -- the two possible results: erase both, or write both
+  have erased : ∀ s1 : WT, s1 = ⟨s.wd.erase p, s.index.erase p⟩ →
+      (∀ k ∈ s1.wd.keys, k ∈ K) ∧ s1.wd.get p = none ∧ s1.index.get p = none ∧
+      ∀ q, q ≠ p → s1.wd.get q = s.wd.get q ∧ s1.index.get q = s.index.get q := by
+    intro s1 h1
+    subst h1
+    exact ⟨fun k hk => hkeys k (FMap.mem_keys_erase hk), FMap.get_erase_same _ _, FMap.get_erase_same _ _,
+      fun q hq => ⟨FMap.get_erase_ne _ hq, FMap.get_erase_ne _ hq⟩⟩
+  have written : ∀ (wd0 : FMap WFile) (ix0 : FMap IEntry) (f : WFile), (∀ k ∈ wd0.keys, k ∈ K) →
+      (∀ k ∈ (wd0.put p f).keys, k ∈ K) ∧ (wd0.put p f).get p = some f ∧
+      (ix0.put p f.ientry).get p = some f.ientry ∧
+      ∀ q, q ≠ p → (wd0.put p f).get q = wd0.get q ∧ (ix0.put p f.ientry).get q = ix0.get q := by
+    intro wd0 ix0 f hk0
+    refine ⟨?_, FMap.get_put_same _ _ _, FMap.get_put_same _ _ _,
+      fun q hq => ⟨FMap.get_put_ne _ _ hq, FMap.get_put_ne _ _ hq⟩⟩
+    intro k hk
+    rcases FMap.mem_keys_put hk with e | e
+    · rw [e]; exact hp
+    · exact hk0 k e
+  unfold changesAt targetWd
+  cases ha : a.get p with
+  | none =>
+    have hn : s.wd.get p = none := by rw [hwd, hfA0 ha]
+    cases hb : b.get p with
+    | none =>
+      refine ⟨s, rfl, hkeys, ?_, ?_, fun q _ => ⟨rfl, rfl⟩⟩
+      · simp [hn]
+      · simp [hidx, hfA0 ha]
+    | some y =>
+      obtain ⟨o, ho⟩ := hobs y hb
+      have hstep := @transitionToFile_absent obs s p y o (hvb y hb) hfree.2.2 (free_view_none hkeys hK hp hn) ho
+      obtain ⟨w1, w2, w3, w4⟩ := written s.wd s.index (fileOf y o) hkeys
+      refine ⟨_, applyChanges_one (c := .add p y) hstep, w1, ?_, ?_, w4⟩
+      · simp [w2, ho]
+      · simp [w3, ho]
+  | some x =>
+    obtain ⟨f, hf, hfx⟩ := hfA1 x ha
+    have hg : s.wd.get p = some f := by rw [hwd, hf]
+    have hview := free_view_some hkeys hK hp hg
+    have hdel := @transitionToAbsent_file s p f (hva x ha) hview
+    obtain ⟨e1, e2, e3, e4⟩ := erased _ rfl
+    cases hb : b.get p with
+    | none =>
+      refine ⟨_, applyChanges_one (c := .delete p x) hdel, e1, ?_, ?_, e4⟩
+      · simp [e2]
+      · simp [e3]
+    | some y =>
+      obtain ⟨o, ho⟩ := hobs y hb
+      by_cases hxy : x = y
+      · subst hxy
+        refine ⟨s, by simp [applyChanges], hkeys, ?_, ?_, fun q _ => ⟨rfl, rfl⟩⟩
+        · simp [hwd]
+        · simp [hidx]
+      · have hne : ¬ (some x = some y) := fun e => hxy (Option.some.inj e)
+        simp only [hxy, if_false, hne]
+        by_cases hlk : isLink x.kind = isLink y.kind
+        · -- modify: the file on disk does not match, it is rewritten
+          have hfk : isLink f.kind = isLink y.kind := by rw [← hlk, ← hfx]; rfl
+          have hstep := @transitionToFile_differs obs s p y o f (hvb y hb) hfree.2.2 hview
+            (by rw [hfx]; exact hxy) hfk ho
+          obtain ⟨w1, w2, w3, w4⟩ := written s.wd s.index (fileOf y o) hkeys
+          refine ⟨_, by simpa [hlk] using applyChanges_one (c := .modify p x y) hstep, w1, ?_, ?_, w4⟩
+          · simp [w2, ho]
+          · simp [w3, ho]
+        · -- type change: delete, then add
+          have hfree1 := free_view (wd := s.wd.erase p) e1 hK hp
+          have hstep := @transitionToFile_absent obs ⟨s.wd.erase p, s.index.erase p⟩ p y o (hvb y hb)
+            hfree1.2.2 (free_view_none e1 hK hp e2) ho
+          obtain ⟨w1, w2, w3, w4⟩ := written (s.wd.erase p) (s.index.erase p) (fileOf y o) e1
+          have hlk' : (isLink x.kind != isLink y.kind) = true := by simpa using hlk
+          refine ⟨_, by simpa [hlk'] using applyChanges_two (c := .delete p x) (d := .add p y) hdel hstep,
+            w1, ?_, ?_, ?_⟩
+          · simp [w2, ho]
+          · simp [w3, ho]
+          · intro q hq
+            exact ⟨(w4 q hq).1.trans (e4 q hq).1, (w4 q hq).2.trans (e4 q hq).2⟩
+
+
+theorem applyChanges_append (obs : Obs) (s : WT) (c1 c2 : List Change) :
+    applyChanges obs s (c1 ++ c2) =
+      match applyChanges obs s c1 with
+      | (s', none) => applyChanges obs s' c2
+      | (s', some e) => (s', some e) := by
+  induction c1 generalizing s with
+  | nil => simp [applyChanges]
+  | cons c r ih =>
+    simp only [List.cons_append, applyChanges]
+    cases h : applyChange obs s c with
+    | ok s1 => simp only [ih]
+    | error e => simp
+
+/-- Processing the changes at every path of a duplicate-free list, from the state a clean checkout
+of `a` left at those paths. -/
+theorem applyChanges_paths {a b : FMap Entry} {fA : FMap WFile} {obs : Obs} {K : List Path}
+    (hK : AncFree K)
+    (hva : ∀ p x, a.get p = some x → validPath p = true) (hvb : ∀ p y, b.get p = some y → validPath p = true)
+    (hobs : ∀ p y, b.get p = some y → ∃ o, obs.get p = some o)
+    (hfA0 : ∀ p, a.get p = none → fA.get p = none)
+    (hfA1 : ∀ p x, a.get p = some x → ∃ f, fA.get p = some f ∧ f.entry = x)
+    (L : List Path) (hL : L.Nodup) (hLK : ∀ p ∈ L, p ∈ K) (s : WT)
+    (hkeys : ∀ k ∈ s.wd.keys, k ∈ K)
+    (hA : ∀ p ∈ L, s.wd.get p = fA.get p ∧ s.index.get p = (fA.get p).map WFile.ientry) :
+    ∃ s', applyChanges obs s (L.flatMap (changesAt a b)) = (s', none) ∧ (∀ k ∈ s'.wd.keys, k ∈ K) ∧
+      (∀ p ∈ L, s'.wd.get p = targetWd a b fA obs p ∧
+        s'.index.get p = (targetWd a b fA obs p).map WFile.ientry) ∧
+      (∀ q, q ∉ L → s'.wd.get q = s.wd.get q ∧ s'.index.get q = s.index.get q) := by
+  induction L generalizing s with
+  | nil => exact ⟨s, rfl, hkeys, fun _ h => absurd h List.not_mem_nil, fun _ _ => ⟨rfl, rfl⟩⟩
+  | cons p r ih =>
+    rw [List.nodup_cons] at hL
+    have hpK := hLK p List.mem_cons_self
+    obtain ⟨s1, h1, k1, w1, i1, o1⟩ := applyChangesAt (a := a) (b := b) (fA := fA) (obs := obs) hK hkeys hpK
+      (hva p) (hvb p) (hobs p) (hfA0 p) (hfA1 p) (hA p List.mem_cons_self).1 (hA p List.mem_cons_self).2
+    have hA1 : ∀ q ∈ r, s1.wd.get q = fA.get q ∧ s1.index.get q = (fA.get q).map WFile.ientry := by
+      intro q hq
+      have hqp : q ≠ p := fun e => hL.1 (e ▸ hq)
+      rw [(o1 q hqp).1, (o1 q hqp).2]
+      exact hA q (List.mem_cons_of_mem _ hq)
+    obtain ⟨s2, h2, k2, t2, o2⟩ := ih hL.2 (fun q hq => hLK q (List.mem_cons_of_mem _ hq)) s1 k1 hA1
+    refine ⟨s2, ?_, k2, ?_, ?_⟩
+    · rw [List.flatMap_cons, applyChanges_append, h1]
+      exact h2
+    · intro q hq
+      rcases List.mem_cons.mp hq with e | e
+      · subst e
+        rw [(o2 q hL.1).1, (o2 q hL.1).2]
+        exact ⟨w1, i1⟩
+      · exact t2 q e
+    · intro q hq
+      have hqp : q ≠ p := fun e => hq (e ▸ List.mem_cons_self)
+      have hqr : q ∉ r := fun e => hq (List.mem_cons_of_mem _ e)
+      rw [(o2 q hqr).1, (o2 q hqr).2]
+      exact o1 q hqp
+
+
+theorem foldl_ok {β : Type} (step : Except WErr Unit → β → Except WErr Unit) (l : List β)
+    (h : ∀ x ∈ l, step (.ok ()) x = .ok ()) : l.foldl step (.ok ()) = .ok () := by
+  induction l with
+  | nil => rfl
+  | cons x r ih =>
+    rw [List.foldl_cons, h x List.mem_cons_self]
+    exact ih (fun y hy => h y (List.mem_cons_of_mem _ hy))
+
+def Change.path : Change → Path
+  | .delete p _ => p
+  | .add p _ => p
+  | .modify p _ _ => p
+
+theorem changesAt_mem {a b : FMap Entry} {p : Path} {ch : Change} (h : ch ∈ changesAt a b p) :
+    ch.path = p ∧ (∀ q old, ch = .delete q old → a.get p = some old) ∧
+    (∀ q old n, ch = .modify q old n → a.get p = some old) := by
+  unfold changesAt at h
+  cases ha : a.get p <;> cases hb : b.get p <;> simp only [ha, hb] at h
+  · cases h
+  · simp only [List.mem_singleton] at h; subst h
+    exact ⟨rfl, fun _ _ e => (by cases e), fun _ _ _ e => (by cases e)⟩
+  · simp only [List.mem_singleton] at h; subst h
+    exact ⟨rfl, fun _ _ e => (by cases e; rfl), fun _ _ _ e => (by cases e)⟩
+  · rename_i x y
+    split at h
+    · cases h
+    · split at h
+      · simp only [List.mem_cons, List.not_mem_nil, or_false] at h
+        rcases h with h | h <;> subst h
+        · exact ⟨rfl, fun _ _ e => (by cases e; rfl), fun _ _ _ e => (by cases e)⟩
+        · exact ⟨rfl, fun _ _ e => (by cases e), fun _ _ _ e => (by cases e)⟩
+      · simp only [List.mem_singleton] at h; subst h
+        exact ⟨rfl, fun _ _ e => (by cases e), fun _ _ _ e => (by cases e; rfl)⟩
+
+theorem changes_mem {a b : FMap Entry} {ch : Change} (h : ch ∈ changes a b) :
+    ch.path ∈ a.keys ++ b.keys ∧ (∀ q old, ch = .delete q old → a.get ch.path = some old) ∧
+    (∀ q old n, ch = .modify q old n → a.get ch.path = some old) := by
+  unfold changes at h
+  rw [List.mem_flatMap] at h
+  obtain ⟨p, hp, hch⟩ := h
+  obtain ⟨h1, h2, h3⟩ := changesAt_mem hch
+  rw [h1]
+  exact ⟨(mem_changedPathOrder a b p).mp hp, h2, h3⟩
+
+/-! ### a world in which the index records exactly the files of the directory, which are HEAD's -/
+
+structure Synced (w : World) : Prop where
+  idx : ∀ p, w.index.get p = (w.wd.get p).map WFile.ientry
+  head : ∀ p, w.head.get p = (w.wd.get p).map WFile.entry
+  flat : ∀ p ∈ w.wd.keys, hasFileAncestor w.wd p = false
+
+theorem Synced.view {w : World} (h : Synced w) {p : Path} {f : WFile} (hg : w.wd.get p = some f) :
+    lstatView w.wd p = .file f :=
+  lstatView_noAnc_some (h.flat p (FMap.mem_keys_of_get hg)) hg
+
+theorem Synced.nothing_changed {w : World} (h : Synced w) :
+    stagedAdd w.head w.index = [] ∧ stagedDel w.head w.index = [] ∧ stagedMod w.head w.index = [] ∧
+    unstagedOf w.wd w.index = .ok [] := by
+  have hcatch : Gen.WorkTree.unstagedCatchesNotDir = false := rfl
+  have key : ∀ p, p ∈ w.index.keys → ∃ f, w.wd.get p = some f ∧ w.index.get p = some f.ientry ∧
+      w.head.get p = some f.entry := by
+    intro p hp
+    obtain ⟨e, he⟩ := FMap.get_of_mem_keys hp
+    have hi := h.idx p
+    cases hw : w.wd.get p with
+    | none => rw [hw, he] at hi; cases hi
+    | some f => exact ⟨f, rfl, by rw [hi, hw]; rfl, by rw [h.head p, hw]; rfl⟩
+  refine ⟨?_, ?_, ?_, ?_⟩
+  · simp only [stagedAdd, List.filter_eq_nil_iff]
+    intro p hp
+    obtain ⟨f, _, _, hh⟩ := key p hp
+    simp [FMap.has, hh]
+  · simp only [stagedDel, List.filter_eq_nil_iff]
+    intro p hp
+    obtain ⟨e, he⟩ := FMap.get_of_mem_keys hp
+    have hh := h.head p
+    cases hw : w.wd.get p with
+    | none => rw [hw, he] at hh; cases hh
+    | some f => simp [FMap.has, h.idx p, hw]
+  · simp only [stagedMod, List.filter_eq_nil_iff, modifiedAt]
+    intro p hp
+    obtain ⟨e, he⟩ := FMap.get_of_mem_keys hp
+    have hh := h.head p
+    cases hw : w.wd.get p with
+    | none => rw [hw, he] at hh; cases hh
+    | some f =>
+      rw [h.head p, h.idx p, hw]
+      simp only [Option.map_some]
+      have : ¬ (entryDiffers f.entry f.ientry = true) := by
+        rw [entryDiffers_iff]; simp [WFile.ientry, IEntry.entry, WFile.entry]
+      simpa using this
+  · unfold unstagedOf
+    have hnd : w.index.keys.any (lstatRaisesNotDir w.wd) = false := by
+      rw [List.any_eq_false]
+      intro p hp
+      obtain ⟨f, hw, _, _⟩ := key p hp
+      simp [lstatRaisesNotDir, hcatch, blocked_imp_anc (h.flat p (FMap.mem_keys_of_get hw))]
+    simp only [hnd, Bool.false_eq_true, if_false]
+    congr 1
+    rw [List.filter_eq_nil_iff]
+    intro p hp
+    obtain ⟨f, hw, hi, _⟩ := key p hp
+    simp [changedAt, hi, entryChanged, h.view hw, WFile.ientry, statMatches_self]
+
+theorem Synced.status {w : World} (h : Synced w) :
+    status w = .ok ⟨[], [], [], [], untrackedOf w.wd w.index⟩ := by
+  obtain ⟨ha, hd, hm, hu⟩ := h.nothing_changed
+  unfold WorkTree.status
+  rw [hu, ha, hd, hm]
+  rfl
+
+theorem Synced.wdEntry {w : World} (h : Synced w) (p : Path) : wdEntry w.wd p = w.head.get p := by
+  rw [h.head p]
+  cases hw : w.wd.get p with
+  | some f => rw [wdEntry_file (h.view hw)]; rfl
+  | none =>
+    simp only [Option.map_none]
+    cases hv : WorkTree.wdEntry w.wd p with
+    | none => rfl
+    | some e =>
+      have : (WorkTree.wdEntry w.wd p).isSome = true := by rw [hv]; rfl
+      obtain ⟨f, hf⟩ := (wdEntry_isSome_iff _ _).mp this
+      rw [lstatView_file_get hf] at hw; cases hw
+
+theorem Synced.treeOf {w : World} (h : Synced w) (p : Path) : (treeOf w.index).get p = w.head.get p := by
+  simp only [WorkTree.treeOf]
+  rw [FMap.get_mapVal _ (fun _ (v : IEntry) => v.entry) p, h.idx p, h.head p]
+  cases w.wd.get p <;> rfl
+
+
+theorem treeWF_of_ancFree {a b : FMap Entry} (h : AncFree (a.keys ++ b.keys)) : TreeWF a := by
+  unfold TreeWF
+  rw [List.all_eq_true]
+  intro p hp
+  simp only [hasFileAncestor, Bool.not_eq_eq_eq_not, Bool.not_true, List.any_eq_false]
+  intro k hk
+  simp [h.apply (List.mem_append_left _ hk) (List.mem_append_left _ hp)]
+
+theorem checkedOut_synced {t : FMap Entry} {obs : Obs} (hobs : t.keys.all obs.has = true) (hwf : TreeWF t) :
+    Synced (checkedOut t obs) := by
+  refine ⟨fun p => checkedOut_index_get t obs p, ?_, ?_⟩
+  · intro p
+    show t.get p = ((checkoutFiles t obs).get p).map WFile.entry
+    rw [checkoutFiles_get t obs hobs]
+    cases ht : t.get p with
+    | none => rfl
+    | some e =>
+      obtain ⟨o, ho⟩ := Option.isSome_iff_exists.mp ((List.all_eq_true.mp hobs) p (FMap.mem_keys_of_get ht))
+      simp [ho, WFile.entry]
+  · intro p hp
+    have hp' : p ∈ t.keys := by
+      simp only [checkedOut] at hp; rwa [checkoutFiles_keys t obs hobs] at hp
+    show hasFileAncestor (checkoutFiles t obs) p = false
+    rw [hasFileAncestor_keys (checkoutFiles_keys t obs hobs)]
+    simpa using (List.all_eq_true.mp hwf) p hp'
+
+theorem checkUncommitted_synced {w : World} (h : Synced w) (b : FMap Entry) : checkUncommitted w b = .ok () := by
+  unfold checkUncommitted
+  rw [h.status]
+  rfl
+
+theorem preCheckDirs_free {wd : FMap WFile} {a b : FMap Entry} (hK : AncFree (a.keys ++ b.keys)) :
+    preCheckDirs wd (changes a b) = .ok () := by
+  unfold preCheckDirs
+  apply foldl_ok
+  intro ch hch
+  cases ch with
+  | add p e => rfl
+  | modify p x y => rfl
+  | delete p old =>
+    have hp : p ∈ a.keys ++ b.keys := (changes_mem hch).1
+    have hany : (changes a b).any (writesBelow p) = false := by
+      rw [List.any_eq_false]
+      intro c hc
+      have hq : c.path ∈ a.keys ++ b.keys := (changes_mem hc).1
+      cases c with
+      | delete q o => simp [writesBelow]
+      | add q e =>
+        have hq' : q ∈ a.keys ++ b.keys := hq
+        simp [writesBelow, hK.apply hp hq']
+      | modify q x y =>
+        have hq' : q ∈ a.keys ++ b.keys := hq
+        simp [writesBelow, hK.apply hp hq']
+    simp only [hany]
+    rfl
+
+/-- In a synced world the files are what HEAD says, so the "uncommitted modifications" check passes. -/
+theorem preCheckModified_synced {w : World} (h : Synced w) (b : FMap Entry) :
+    preCheckModified w.wd (changes w.head b) = .ok () := by
+  have chk : ∀ p old, w.head.get p = some old → checkUnmodified w.wd p old = .ok () := by
+    intro p old hold
+    unfold checkUnmodified
+    split
+    · rfl
+    · have hh := h.head p
+      rw [hold] at hh
+      cases hw : w.wd.get p with
+      | none => rw [hw] at hh; cases hh
+      | some f =>
+        rw [hw] at hh
+        have hfe : f.entry = old := (Option.some.inj hh).symm
+        rw [h.view hw]
+        have : fileMatches f old = true := by
+          rw [← hfe]; simp [fileMatches, WFile.entry]
+        simp [this]
+  unfold preCheckModified
+  apply foldl_ok
+  intro ch hch
+  obtain ⟨_, h2, h3⟩ := changes_mem hch
+  cases ch with
+  | add p e => rfl
+  | modify p x y => exact chk p x (h3 p x y rfl)
+  | delete p old => exact chk p old (h2 p old rfl)
+
+
 end Dulwich.WorkTree
